@@ -47,7 +47,7 @@ type vfPairCfg struct {
 	EncBack                 int  // white-box: the client's FEC encoder starts this many groups before its wrap value (reachable after ~2^32 packets)
 	Dup                     int  // SetDUP(n) on both sessions (duplicate datagrams; exercises the transmit queue's buffer ownership)
 	UnlockPoints            bool // extra scheduling point after every Mutex.Unlock (code that touches guarded state after releasing the lock)
-	Batch                   int  // 1 = the Linux batch read/transmit paths on a virtual batch connection, 2 = also short sendmmsg counts
+	Batch                   int  // 1 = the Linux batch read/transmit paths on a virtual batch connection, 2 = also short sendmmsg counts, 3 = once a partial count followed by an error
 	GapAfter                int  // the client writer idles GapMs after this many writes (0 = never)
 	GapMs                   int
 }
@@ -177,7 +177,7 @@ func (c vfPairCfg) fatesOf() []int {
 // vfPairSetup builds network, listener and client (inside a vrt execution).
 func vfPairSetup(cfg vfPairCfg) *vfPair {
 	vfResetGlobals()
-	vfBatchMode, vfBatchPartial = cfg.Batch > 0, cfg.Batch > 1
+	vfBatchMode, vfBatchPartial, vfBatchFault = cfg.Batch > 0, cfg.Batch == 2, cfg.Batch == 3
 	vrt.SetPoolMode(cfg.Pool)
 	p := &vfPair{cfg: cfg, net: vfNewNet(), shrinkAt: -1}
 	if cfg.Delay > 0 {
